@@ -1,36 +1,72 @@
-//! One module per property. Each exposes `pub fn run(rep: &mut vx::Report)`.
+//! One module per property, each behind its own cargo feature (`cNN`) so that a module
+//! under construction cannot break the build of the others. Each exposes
+//! `pub const BUILT: bool` and `pub fn run(rep: &mut vx::Report)`.
+#[cfg(feature = "c01")]
 pub mod c01;
+#[cfg(feature = "c02")]
 pub mod c02;
+#[cfg(feature = "c03")]
 pub mod c03;
+#[cfg(feature = "c04")]
 pub mod c04;
+#[cfg(feature = "c05")]
 pub mod c05;
+#[cfg(feature = "c06")]
 pub mod c06;
+#[cfg(feature = "c07")]
 pub mod c07;
+#[cfg(feature = "c08")]
 pub mod c08;
+#[cfg(feature = "c09")]
 pub mod c09;
+#[cfg(feature = "c10")]
 pub mod c10;
+#[cfg(feature = "c11")]
 pub mod c11;
+#[cfg(feature = "c12")]
 pub mod c12;
+#[cfg(feature = "c13")]
 pub mod c13;
+#[cfg(feature = "c14")]
 pub mod c14;
+#[cfg(feature = "c15")]
 pub mod c15;
+#[cfg(feature = "c16")]
 pub mod c16;
+#[cfg(feature = "c17")]
 pub mod c17;
+#[cfg(feature = "c18")]
 pub mod c18;
+#[cfg(feature = "c19")]
 pub mod c19;
+#[cfg(feature = "c20")]
 pub mod c20;
+#[cfg(feature = "c21")]
 pub mod c21;
+#[cfg(feature = "c23")]
 pub mod c23;
+#[cfg(feature = "c24")]
 pub mod c24;
+#[cfg(feature = "c25")]
 pub mod c25;
+#[cfg(feature = "c26")]
 pub mod c26;
+#[cfg(feature = "c27")]
 pub mod c27;
+#[cfg(feature = "c28")]
 pub mod c28;
+#[cfg(feature = "c30")]
 pub mod c30;
 
 /// Entry point for `vcheck --worker <ID> ...` subprocesses.
 pub fn worker_main(args: &[String]) -> i32 {
     match args.first().map(|s| s.as_str()) {
+        #[cfg(feature = "c01")]
+        Some("C01") => c01::worker_main(&args[1..]),
+        #[cfg(feature = "c15")]
+        Some("C15") => c15::worker_main(&args[1..]),
+        #[cfg(feature = "c20")]
+        Some("C20") => c20::worker_main(&args[1..]),
         _ => {
             eprintln!("no worker for {:?}", args.first());
             2
